@@ -45,8 +45,9 @@ MANIFEST = dict(
           "decimal J2000 matrix, r^2 (1 + sin^2 beta) for the mean-equinox function as coded; "
           "rectangular_coordinates_b1950 is NOT the B1950 matrix applied to the vector (counterexample + what it does "
           "compute); true obliquity = mean + nutation (mod 360); mean obliquity within 3 arcsec of the IAU cubic for "
-          "|u| <= 0.2; nutation in longitude / obliquity within 3.5 / 1.5 arcsec of the main term on the series' own "
-          "node argument for |T| <= 40 centuries, from the sums of the generated coefficients. PARTIAL: 'equals the "
+          "|u| <= 0.2; nutation in longitude / obliquity within 3.5 / 1.5 arcsec of the main-term model, both on the series' "
+          "own node argument and on Moon.longitude_mean_ascending_node, for |T| <= 40 centuries, from the sums of the "
+          "absolute values of the generated coefficients. PARTIAL: 'equals the "
           "of-date position carried by the library's own precession to 2 arcsec' and 'coarse vs VSOP87 to 0.02 deg' "
           "are agreements between independent series: covered by the bit-exact correspondence run and the "
           "predicates on the implementation only. On the current tree the frame clause FAILS (known findings: a "
@@ -54,9 +55,7 @@ MANIFEST = dict(
           "and the overwritten variables of rectangular_coordinates_b1950)."),
     note=("Trusted: Lean kernel, Mathlib, axioms propext/Classical.choice/Quot.sound; hand-written model "
           "lean/templates/SunEarth.lean + Vsop.lean and the table translator tools/gen_tables.py, validated on every "
-          "run by the bit-for-bit correspondence run; idealisation binary64 -> reals. The nutation theorem is about "
-          "the series' own node polynomial; the comparison with Moon.longitude_mean_ascending_node (a different "
-          "polynomial) is numerical. Date-argument forms are exercised on the implementation only (Epoch "
+          "run by the bit-for-bit correspondence run; idealisation binary64 -> reals. Date-argument forms are exercised on the implementation only (Epoch "
           "construction is C01/C02)."),
     technique="Lean 4 proof + model/implementation correspondence check + property predicates on the implementation",
     ref='6 C08')
